@@ -105,3 +105,66 @@ def method_slices(rows):
                 break
         out.append((r, rows[i:j]))
     return out
+
+
+# ------------------------------------------------------------------------------------------ tokens (GIRMachine)
+_INT = _re.compile(r"^-?\d+$")
+TOK_FIELDS = ("operand", "operand2", "condition", "receiver", "name", "array", "index", "source", "receiver_object",
+              "receiver_record", "key", "value")
+
+
+def token(text):
+    """Operand text -> tagged token.  Purely lexical: literals keep their spelling-derived kind, everything else is a name."""
+    if text is None or text == "":
+        return {"k": "empty", "i": 0, "s": ""}
+    t = str(text)
+    if _INT.match(t):
+        v = int(t)
+        if abs(v) < 2 ** 30:
+            return {"k": "int", "i": v, "s": ""}
+        return {"k": "big", "i": 0, "s": t}
+    if len(t) >= 2 and t[0] == t[-1] and t[0] in "\"'":
+        return {"k": "str", "i": 0, "s": t[1:-1]}
+    if t in ("True", "true"):
+        return {"k": "bool", "i": 1, "s": ""}
+    if t in ("False", "false"):
+        return {"k": "bool", "i": 0, "s": ""}
+    if t in ("None", "null", "nil", "undefined"):
+        return {"k": "none", "i": 0, "s": ""}
+    return {"k": "var", "i": 0, "s": t}
+
+
+def dict_text(v):
+    if v is None or v == "":
+        return {}
+    try:
+        import ast
+        x = ast.literal_eval(str(v))
+        return x if isinstance(x, dict) else {}
+    except (ValueError, SyntaxError):
+        return {}
+
+
+def machine_row(r):
+    """norm_row + tokens for the data machine."""
+    out = norm_row(r, extra_str=("receiver_record",))
+    for f in TOK_FIELDS:
+        out[f + "_tok"] = token(r.get(f))
+    out["default_tok"] = token(r.get("default_value"))
+    out["pos_toks"] = [token(a) for a in arg_list(r.get("positional_args"))]
+    out["named_toks"] = [{"name": str(k), "tok": token(v)} for k, v in dict_text(r.get("named_args")).items()]
+    attrs = arg_list(r.get("attrs"))
+    out["is_tuple"] = "tuple" in attrs
+    out["attrs"] = attrs
+    out["target_temp"] = out["target"].startswith("%")
+    return out
+
+
+def temps_of(rows):
+    names = set()
+    for r in rows:
+        for f in ("target", "name"):
+            v = r.get(f)
+            if isinstance(v, str) and v.startswith("%") and v not in ("%this", "%class", "%unit_init", "%class_sinit"):
+                names.add(v)
+    return sorted(names)
